@@ -32,13 +32,36 @@ Init == /\ l = 1 /\ model = NoModel /\ stored = {} /\ bad = <<>>
 Ev1 == Trace[l]
 IsEvent(e) == l <= Len(Trace) /\ Trace[l].e = e /\ l' = l + 1
 
-OKs == {"OK_T", "OK_F", "OK_ERR", "OK_ERR_DECIDED", "OK_STALE_PERMITTED","OK_LO", "OK_LO_ERR", "OK_LO_ERR_OTHERCODE", "OK_LO_LIMIT", "OK_LU", "OK_LU_ERR", "OK_EXPAND", "OK_DUMP", "OK_BATCH", "OK_EVALS", "OK_V2_SHAPE_ERR", "OK_V2_DOCUMENTED_DIFF", "OK_V2_SAME_AS_V1",
+OKs == {"OK_T", "OK_F", "OK_ERR", "OK_ERR_DECIDED", "OK_STALE_PERMITTED","OK_LO", "OK_LO_ERR", "OK_LO_ERR_OTHERCODE", "OK_LO_LIMIT", "OK_LU", "OK_LU_ERR", "OK_EXPAND", "OK_DUMP", "OK_BATCH", "OK_EVALS", "OK_STOPPED", "OK_PARTIAL","OK_V2_SHAPE_ERR", "OK_V2_DOCUMENTED_DIFF", "OK_V2_SAME_AS_V1",
         "SKIP_DEPTH", "SKIP_UNSTRATIFIED"}
 
 Bump(c, cls) == [x \in DOMAIN c \cup {cls} |-> IF x = cls THEN (IF x \in DOMAIN c THEN c[x] ELSE 0) + 1 ELSE c[x]]
 
+\* Termination and resource release (C20).  A query line may carry "res": the deadline (ms) that
+\* applied (request deadline or client cancellation time), the scheduling slack granted, the wall
+\* time the call took, whether a deadline / cancellation was actually imposed, the number of
+\* goroutines still alive after the call has settled beyond the number before it, and the number of
+\* tuple iterators the call opened and neither exhausted nor stopped.
+\*  - the call must return within deadline + slack and leave nothing behind;
+\*  - when a deadline / cancellation was imposed, an error naming it and a partial (but sound)
+\*    list are legitimate outcomes.
+StopErrs == {"BAD_ERR", "BAD_LO_ERR", "BAD_LU_ERR", "BAD_EXPAND_ERR", "BAD_BATCH_ERR"}
+Partials == {"BAD_LO_INCOMPLETE", "BAD_LO_INCOMPLETE_E", "BAD_LU_INCOMPLETE", "BAD_LU_INCOMPLETE_E", "BAD_LO_LIMIT"}
+ResClass(cls) ==
+  IF "res" \notin DOMAIN Ev1 THEN cls
+  ELSE LET rs == Ev1.res
+           c1 == IF rs.imposed /\ cls \in StopErrs /\ Ev1.errk \in {"deadline", "cancel", "throttled"} THEN "OK_STOPPED"
+                 ELSE IF rs.imposed /\ cls \in Partials THEN "OK_PARTIAL"
+                 ELSE cls
+       IN IF c1 \notin (OKs \cup {"OK_STOPPED", "OK_PARTIAL"}) THEN c1      \* a wrong answer, a known finding or a hang: reported as such
+          ELSE IF rs.wall > rs.deadline + rs.slack THEN "BAD_RESOURCE_LATE"
+          ELSE IF rs.gleak > 0 THEN "BAD_RESOURCE_GOROUTINE_LEAK"
+          ELSE IF rs.iters > 0 THEN "BAD_RESOURCE_ITERATOR_LEAK"
+          ELSE c1
+
 \* record a verdict: "OK…" classes only count, everything else is listed
-Judge(cls, ref, note) ==
+Judge(cls0, ref, note) ==
+  LET cls == ResClass(cls0) IN
   /\ counts' = Bump(counts, cls)
   /\ IF cls = "SKIP_DEPTH" \/ cls = "SKIP_UNSTRATIFIED"
        THEN skipped' = skipped + 1 /\ judged' = judged
